@@ -2640,6 +2640,10 @@ func (pid *PID) setBehavior(behavior Behavior) {
 // resetBehavior is a utility function resets the actor behavior
 func (pid *PID) resetBehavior() {
 	pid.fieldsLocker.Lock()
+	// drop every behavior, stacked ones included, before restoring the default:
+	// pushing alone left BecomeStacked behaviors underneath, so a later
+	// UnBecomeStacked brought a discarded behavior back
+	pid.behaviorStack.Reset()
 	pid.behaviorStack.Push(pid.actor.Receive)
 	pid.fieldsLocker.Unlock()
 }
